@@ -46,7 +46,7 @@ ANCHORED = ("quimb/tensor/tensor_core.py", "quimb/tensor/tn1d/core.py", "quimb/t
             "quimb/tensor/tn3d/core.py", "quimb/tensor/tnag/core.py")
 
 OTHER, SAFE, ORIG = 0, 1, 2
-FLAG_RE = re.compile(r"^inplace(_\w+)?$")
+FLAG_RE = re.compile(r"^(inplace(_\w+)?|virtual)$")
 
 # ---------------------------------------------------------------------------------------------- declared leaves
 # effect of the method on ITS receiver (join-ed with the derived summary; consistency is obligation O4).
@@ -61,6 +61,15 @@ DECLARED_MODIFIES = {
 DECLARED_FRESH = {"copy", "deepcopy", "__copy__", "__deepcopy__"}
 # declared: weak back-references from a tensor to the networks that hold it -- registry only, not observable state
 UNOBSERVABLE_FIELDS = {"_owners"}
+# declared: return a *view* -- a new network / tuple holding the receiver's own tensor objects -- unless called with
+# virtual=False (joined with the derived return value)
+DECLARED_VIEWS = {"select", "select_any", "select_all", "select_tensors", "select_neighbors", "select_local",
+                  "_select_tids", "_select_without_tids", "_select_local_tids", "tensors", "arrays"}
+# declared typing fact: these attributes hold immutable values (float / int / str / tuple): aliasing them is harmless
+IMMUTABLE_ATTRS = {"exponent", "inds", "shape", "dtype", "ndim", "size", "nsites", "num_tensors", "num_indices", "L",
+                   "Lx", "Ly", "Lz", "cyclic", "site_ind_id", "site_tag_id", "upper_ind_id", "lower_ind_id",
+                   "_site_ind_id", "_site_tag_id", "_upper_ind_id", "_lower_ind_id", "left_inds", "backend",
+                   "x_tag_id", "y_tag_id", "z_tag_id", "_NDIMS", "__class__", "__name__"}
 CONTAINER_MUTATORS = {"append", "add", "pop", "update", "clear", "discard", "remove", "setdefault", "extend", "insert",
                       "popitem", "sort", "reverse", "fill", "appendleft", "popleft", "popright", "difference_update",
                       "intersection_update", "symmetric_difference_update", "move_to_end", "resize", "itemset",
@@ -125,22 +134,68 @@ def joinall(vs):
     return out
 
 
-class State:
-    __slots__ = ("env", "facts", "kwf")
+def lit(key, pol):
+    return key if pol else "not (" + key + ")"
 
-    def __init__(self, env=None, facts=None, kwf=None):
-        self.env, self.facts, self.kwf = env or {}, facts or {}, kwf or {}
+
+def lit_value(l, facts):
+    if l.startswith("not ("):
+        v = facts.get(l[5:-1])
+        return None if v is None else (not v)
+    return facts.get(l)
+
+
+def refine(v, facts, disj):
+    """value of a stored abstract value under the path facts (atom -> bool) / an active disjunction of literals"""
+    if v.lvl == ORIG:
+        tq = sorted(q for q, b in facts.items() if b and FLAG_RE.match(q))
+        if tq:
+            return Val(SAFE, frozenset(["inplace" if "inplace" in tq else tq[0]]), v.depth)
+        if disj and any(FLAG_RE.match(l) for l in disj):
+            rest = frozenset(l for l in disj if lit_value(l, facts) is not False)
+            if rest and not any(lit_value(l, facts) is True and not FLAG_RE.match(l) for l in rest):
+                return Val(SAFE, rest, v.depth)
+        return v
+    if v.lvl == SAFE:
+        if any(lit_value(l, facts) is True and not FLAG_RE.match(l) for l in v.flags):
+            return Val(ORIG, depth=v.depth)      # a non-flag alternative is known to hold: it is the original
+        rest = frozenset(l for l in v.flags if lit_value(l, facts) is not False)
+        if not rest:
+            return OTHERV
+        if rest != v.flags:
+            return Val(SAFE, rest, v.depth)
+    return v
+
+
+class State:
+    __slots__ = ("env", "facts", "kwf", "disj")
+
+    def __init__(self, env=None, facts=None, kwf=None, disj=None):
+        self.env, self.facts, self.kwf, self.disj = env or {}, facts or {}, kwf or {}, disj
 
     def copy(self):
-        return State(dict(self.env), dict(self.facts), {k: dict(v) for k, v in self.kwf.items()})
+        return State(dict(self.env), dict(self.facts), {k: dict(v) for k, v in self.kwf.items()}, self.disj)
 
     def normalised_env(self):
         """under a path fact q=True an ORIG value is 'the original only if q' by definition"""
-        tq = sorted(q for q, b in self.facts.items() if b)
-        if not tq:
+        if not self.facts and not self.disj:
             return self.env
-        q = "inplace" if "inplace" in tq else tq[0]
-        return {k: (Val(SAFE, frozenset([q]), v.depth) if v.lvl == ORIG else v) for k, v in self.env.items()}
+        return {k: refine(v, self.facts, self.disj) for k, v in self.env.items()}
+
+    def invalidate(self, name):
+        """`name` is rebound: conditions that mention it no longer describe the stored values"""
+        rx = re.compile(r"\b%s\b" % re.escape(name))
+        hit = [k for k in self.facts if rx.search(k)]
+        if self.disj and any(rx.search(l) for l in self.disj):
+            self.env = self.normalised_env()
+            self.disj = None
+        if hit:
+            self.env = self.normalised_env()
+            for k in hit:
+                del self.facts[k]
+        for k, v in list(self.env.items()):
+            if v.lvl == SAFE and any(rx.search(l) for l in v.flags):
+                self.env[k] = Val(ORIG, depth=v.depth)
 
 
 def join_states(states):
@@ -185,6 +240,7 @@ class FuncInfo:
         self.is_property = bool(decs & {"property", "cached_property", "setter"})
         self.allparams = self.params + self.kwonly
         self.flagparams = [p for p in self.allparams if FLAG_RE.match(p)]
+        self.vflags = {}   # flags this function only forwards through its **kwargs: name -> default at the callee
         self.fid = f"{mod.rel}::{qual}"
 
     @property
@@ -212,6 +268,8 @@ class ModuleInfo:
             warnings.simplefilter("ignore")
             self.tree = ast.parse(src)
         self.funcs, self.classes, self.imports, self.modaliases = {}, {}, {}, {}
+        self.funcalias = {}   # module-level  name = functools.partial(f, ...)  ->  (f, presets)
+        self.dispatch = {}    # module-level  NAME = {"key": function, ...}     ->  [function names]
 
     def line(self, n):
         return self.lines[n - 1].strip() if 0 < n <= len(self.lines) else ""
@@ -259,6 +317,7 @@ class Program:
                 for n in list(c.methods) + list(c.aliases):
                     self.methods_by_name.setdefault(n, []).append(c)
         self._mro = {}
+        self._tl = {}
 
     # -- indexing
     def _index(self, m):
@@ -301,6 +360,14 @@ class Program:
                     continue
                 for a in n.names:
                     m.imports[a.asname or a.name] = ("/".join(modparts), a.name)
+        for st in m.tree.body:
+            if isinstance(st, ast.Assign) and len(st.targets) == 1 and isinstance(st.targets[0], ast.Name):
+                if isinstance(st.value, ast.Dict):
+                    m.dispatch[st.targets[0].id] = [v.id for v in st.value.values if isinstance(v, ast.Name)]
+                elif isinstance(st.value, ast.Call):
+                    al = _alias_of(st.value)
+                    if al and not any(FLAG_RE.match(k) for k in al[1]):
+                        m.funcalias[st.targets[0].id] = al
         # module-level attachments  Class.attr = f / functools.partialmethod(f, ...)
         for st in m.tree.body:
             if isinstance(st, ast.Assign) and len(st.targets) == 1 and isinstance(st.targets[0], ast.Attribute) and \
@@ -322,6 +389,10 @@ class Program:
             return mod.funcs[name]
         if name in mod.classes:
             return mod.classes[name]
+        if name in mod.funcalias and depth < 5 and mod.funcalias[name][0] != name:
+            r = self.lookup_name(mod, mod.funcalias[name][0], depth + 1)
+            if isinstance(r, FuncInfo):
+                return r
         if name in mod.imports and depth < 5:
             path, orig = mod.imports[name]
             tm = self.module_for(path)
@@ -340,6 +411,30 @@ class Program:
             if len(cs) == 1 and (name in mod.imports):
                 return cs[0]
         return None
+
+    def dispatch_targets(self, mod, expr):
+        """functions a dispatch expression  TABLE[key] / TABLE.get(key, ...)  may evaluate to (module-level dict
+        literal of functions), else None"""
+        tab = None
+        if isinstance(expr, ast.Subscript) and isinstance(expr.value, ast.Name):
+            tab = expr.value.id
+        elif isinstance(expr, ast.Call) and isinstance(expr.func, ast.Attribute) and expr.func.attr == "get" and \
+                isinstance(expr.func.value, ast.Name):
+            tab = expr.func.value.id
+        if tab is None:
+            return None
+        m = mod
+        if tab not in m.dispatch and tab in m.imports:
+            m = self.module_for(m.imports[tab][0]) or mod
+            tab = mod.imports[tab][1]
+        if tab not in m.dispatch:
+            return None
+        out = []
+        for n in m.dispatch[tab]:
+            f = self.lookup_name(m, n)
+            if isinstance(f, FuncInfo) and f not in out:
+                out.append(f)
+        return out
 
     def class_named(self, name, mod=None):
         if mod is not None:
@@ -421,9 +516,18 @@ class Program:
                 out.append(o)
         return out
 
-    def candidates_any(self, name):
+    def is_tensorlike(self, ci):
+        """class in the Tensor / TensorNetwork families (the only quimb classes a part of a receiver can be)"""
+        r = self._tl.get(ci.fid)
+        if r is None:
+            r = self._tl[ci.fid] = any(c.name in ("Tensor", "TensorNetwork") for c in self.mro(ci))
+        return r
+
+    def candidates_any(self, name, tensorlike=False):
         out = []
         for c in self.methods_by_name.get(name, []):
+            if tensorlike and not self.is_tensorlike(c):
+                continue
             o = self.own(c, name)
             if o and all(o[0] is not x[0] for x in out):
                 out.append(o)
@@ -435,12 +539,15 @@ class Summary:
     def __init__(self):
         self.lvl = OTHER          # OTHER = pure, SAFE = modifies iff flags, ORIG = modifies
         self.flags = frozenset()
+        self.plvl = OTHER         # same, restricted to writes that reach *parts* of the parameter (depth >= 1):
+        self.pflags = frozenset()  # what matters when the argument is a fresh holder (list / view / BP object) of parts
         self.ret = OTHERV
         self.ret_tuple = None     # per-position abstract values when every `return` is a tuple literal of one arity
         self.uncertain = False
 
     def key(self):
-        return (self.lvl, tuple(sorted(self.flags)), self.ret.key(), self.uncertain,
+        return (self.lvl, tuple(sorted(self.flags)), self.plvl, tuple(sorted(self.pflags)), self.ret.key(),
+                self.uncertain,
                 tuple(v.key() for v in self.ret_tuple) if self.ret_tuple else None)
 
     def text(self):
@@ -452,10 +559,11 @@ class Summary:
 
 
 class Event:
-    __slots__ = ("kind", "line", "src", "lvl", "flags", "certain", "note", "file")
+    __slots__ = ("kind", "line", "src", "lvl", "flags", "certain", "note", "file", "depth")
 
     def __init__(self, kind, line, src, val, certain, note, file):
         self.kind, self.line, self.src, self.lvl, self.flags = kind, line, src, val.lvl, val.flags
+        self.depth = val.depth
         self.certain, self.note, self.file = certain, note, file
 
     def to_json(self):
@@ -470,6 +578,7 @@ class Analyzer:
         self.visiting = set()
         self.done = set()
         self.changed = False
+        self.assumed_global = set()
 
     def summary(self, fi, param):
         key = (fi.fid, param)
@@ -563,13 +672,22 @@ class Intra:
         self.loopstack = []
         self.selfname = fi.params[0] if fi.kind in ("method", "classmethod") and fi.params else None
         self.localfuncs = {}
+        self._init_exits = []
+        self.fnvars = {}        # local name -> [FuncInfo] it may hold (taken from a module-level dispatch table)
+        self.vartype = {}       # local name -> ClassInfo it was constructed as (name = ClassName(...))
         self.memo = []          # stack of {(root name, attribute)} tested for absence by an enclosing `if`
 
     # -- driver
     def run(self):
         d = 3 if self.P == self.fi.vararg else 0
         st = State({self.P: Val(ORIG, depth=d)})
-        self.block(self.fi.node.body, st)
+        end = self.block(self.fi.node.body, st)
+        if self.fi.name == "__init__" and self.selfname and self.P != self.selfname:
+            # a constructor call evaluates to the object under construction: whatever was stored into it
+            for s_ in [end] + self._init_exits:
+                if s_ is not None:
+                    self.ret = join(self.ret, refine(s_.env.get(self.selfname, OTHERV), s_.facts, s_.disj))
+            self.ret_tuple = None
 
     def summarise(self):
         s = Summary()
@@ -583,16 +701,29 @@ class Intra:
             elif e.lvl == SAFE and s.lvl != ORIG:
                 s.lvl = SAFE
                 s.flags = s.flags | e.flags
-        if s.lvl == SAFE and not (s.flags <= set(self.fi.flagparams)):
+            if e.depth >= 1:
+                if e.lvl == ORIG:
+                    s.plvl = ORIG
+                elif e.lvl == SAFE and s.plvl != ORIG:
+                    s.plvl = SAFE
+                    s.pflags = s.pflags | e.flags
+        allowed = set(self.fi.flagparams) | set(self.fi.vflags)
+        if s.lvl == SAFE and not (s.flags <= allowed):
             s.lvl, s.flags = ORIG, frozenset()
+        if s.plvl == SAFE and not (s.pflags <= allowed):
+            s.plvl, s.pflags = ORIG, frozenset()
         if s.lvl == ORIG:
             s.flags = frozenset()
+        if s.plvl == ORIG:
+            s.pflags = frozenset()
         s.ret = self.ret
         s.ret_tuple = tuple(self.ret_tuple) if isinstance(self.ret_tuple, list) else None
         if self.fi.name in DECLARED_FRESH:
             s.ret, s.ret_tuple = OTHERV, None
         if _declared_effect(self.fi.name) and self.P == self.fi.recv_param:
             s.lvl, s.flags = ORIG, frozenset()
+            if self.fi.name in ("modify", "_set_data", "set_params", "apply_to_arrays", "_apply_function"):
+                s.plvl, s.pflags = ORIG, frozenset()
         return s
 
     def event(self, kind, node, val, certain=True, note=""):
@@ -620,33 +751,58 @@ class Intra:
             return {"T": ("F",), "F": ("T",)}.get(v[0], ("U",))
         return ("U",)
 
-    def cond_facts(self, t):
-        if isinstance(t, ast.Name) and t.id in self.flags and t.id not in self.dirty:
-            return {t.id: True}, {t.id: False}
-        if isinstance(t, ast.UnaryOp) and isinstance(t.op, ast.Not):
-            a, b = self.cond_facts(t.operand)
-            return b, a
-        if isinstance(t, ast.BoolOp):
-            parts = [self.cond_facts(v) for v in t.values]
-            if isinstance(t.op, ast.And):
-                tf = {}
-                for a, _ in parts:
-                    tf.update(a)
-                return tf, {}
-            ff = {}
-            for _, b in parts:
-                ff.update(b)
-            return {}, ff
-        return {}, {}
+    def _atom(self, t):
+        """(key, polarity) of an atomic test we track, else None"""
+        if isinstance(t, ast.Name):
+            if t.id in self.flags:
+                return None if t.id in self.dirty else (t.id, True)
+            if t.id in self.fi.allparams:
+                return (t.id, True)
+        if isinstance(t, ast.Compare) and len(t.ops) == 1 and isinstance(t.ops[0], (ast.Is, ast.IsNot)) and \
+                isinstance(t.left, ast.Name) and isinstance(t.comparators[0], ast.Constant) and \
+                t.comparators[0].value is None and t.left.id not in self.flags:
+            return (t.left.id + " is None", isinstance(t.ops[0], ast.Is))
+        return None
 
-    def with_facts(self, st, facts):
-        if not facts:
-            return st.copy()
+    def cond(self, t):
+        """-> (tconj, fconj, tdisj, fdisj): facts implied by the test being true / false, as a conjunction
+        (dict atom->bool) and as a disjunction (set of literals, None = nothing known)"""
+        a = self._atom(t)
+        if a is not None:
+            k, pol = a
+            return {k: pol}, {k: not pol}, frozenset([lit(k, pol)]), frozenset([lit(k, not pol)])
+        if isinstance(t, ast.UnaryOp) and isinstance(t.op, ast.Not):
+            tc, fc, td, fd = self.cond(t.operand)
+            return fc, tc, fd, td
+        if isinstance(t, ast.BoolOp):
+            parts = [self.cond(v) for v in t.values]
+            if isinstance(t.op, ast.And):
+                tc = {}
+                for p in parts:
+                    tc.update(p[0])
+                fd = frozenset().union(*[p[3] for p in parts]) if all(p[3] is not None for p in parts) else None
+                return tc, {}, None, fd
+            fc = {}
+            for p in parts:
+                fc.update(p[1])
+            td = frozenset().union(*[p[2] for p in parts]) if all(p[2] is not None for p in parts) else None
+            return {}, fc, td, None
+        return {}, {}, None, None
+
+    def cond_facts(self, t):
+        tc, fc, td, fd = self.cond(t)
+        return (tc, td), (fc, fd)
+
+    def with_facts(self, st, cf):
+        facts, disj = cf
         s = st.copy()
         for q, b in facts.items():
             if q in s.facts and s.facts[q] is not b:
                 return None  # infeasible
             s.facts[q] = b
+        if disj is not None and len(disj) > 1 and not facts:
+            s.env = s.normalised_env()
+            s.disj = disj
         return s
 
     # -- statements
@@ -674,6 +830,8 @@ class Intra:
         return st
 
     def s_Return(self, s, st):
+        if s.value is None and self.fi.name == "__init__":
+            self._init_exits.append(st)
         if s.value is not None:
             self.ret = join(self.ret, self.ev(s.value, st))
             if isinstance(s.value, ast.Tuple) and not any(isinstance(x, ast.Starred) for x in s.value.elts):
@@ -712,6 +870,24 @@ class Intra:
         return None
 
     def s_Assign(self, s, st):
+        if len(s.targets) == 1 and isinstance(s.targets[0], ast.Name):
+            fs = self.prog.dispatch_targets(self.mod, s.value)
+            if fs is not None:
+                self.fnvars[s.targets[0].id] = fs
+            else:
+                self.fnvars.pop(s.targets[0].id, None)
+            self.vartype.pop(s.targets[0].id, None)
+            if isinstance(s.value, ast.Call):
+                fn = s.value.func
+                tgt = None
+                if isinstance(fn, ast.Name) and fn.id not in st.env:
+                    tgt = self.prog.lookup_name(self.mod, fn.id)
+                elif isinstance(fn, ast.Attribute) and isinstance(fn.value, ast.Name) and fn.value.id not in st.env:
+                    mm = self.prog.lookup_name(self.mod, fn.value.id)
+                    if isinstance(mm, ModuleInfo):
+                        tgt = self.prog.lookup_name(mm, fn.attr)
+                if isinstance(tgt, ClassInfo):
+                    self.vartype[s.targets[0].id] = tgt
         v = self.ev(s.value, st)
         for t in s.targets:
             self.bind(t, v, st, s.value, s)
@@ -761,8 +937,8 @@ class Intra:
         self.memo.pop()
         b = self.block(s.orelse, b) if b is not None else None
         # statement-level copy idiom:  if not inplace: P = P.copy()   (census only)
-        for facts, body, post in ((tf, s.body, a), (ff, s.orelse, b)):
-            if post is not None and facts and not any(facts.values()):
+        for facts, body, post in ((tf[0], s.body, a), (ff[0], s.orelse, b)):
+            if post is not None and facts and any(FLAG_RE.match(q) and not v for q, v in facts.items()):
                 for x in body:
                     if isinstance(x, ast.Assign) and isinstance(x.targets[0], ast.Name) and \
                             pre.get(x.targets[0].id, OTHERV).lvl == ORIG and \
@@ -804,7 +980,7 @@ class Intra:
 
         def setup(s0):
             self.ev(s.test, s0)
-            for q, b in tf.items():
+            for q, b in tf[0].items():
                 if q not in s0.facts:
                     s0.facts[q] = b
         out = self._loop(s.body, s.orelse, st, setup)
@@ -886,7 +1062,7 @@ class Intra:
         if isinstance(t, ast.Name):
             if t.id in self.flags:
                 self.dirty.add(t.id)
-                st.facts.pop(t.id, None)
+            st.invalidate(t.id)
             st.env[t.id] = v
             # option dictionaries carrying a flag
             if valnode is not None:
@@ -928,6 +1104,8 @@ class Intra:
                 return
             if not _unobservable(t):
                 self.event("attribute-assignment", stmt, root, note=f"target `{ast.unparse(t)}`")
+            if isinstance(t.value, ast.Name) and v.lvl and root.lvl == OTHER:
+                st.env[t.value.id] = join(st.env.get(t.value.id, OTHERV), v.part(3))
         elif isinstance(t, ast.Subscript):
             root = self.ev(t.value, st)
             self.ev(t.slice, st)
@@ -943,16 +1121,7 @@ class Intra:
 
     # -- expressions
     def name_val(self, id, st):
-        v = st.env.get(id, OTHERV)
-        if v.lvl == ORIG:
-            tq = sorted(q for q, b in st.facts.items() if b)
-            if tq:
-                q = "inplace" if "inplace" in tq else tq[0]
-                return Val(SAFE, frozenset([q]), v.depth)
-        elif v.lvl == SAFE:
-            if all(st.facts.get(q) is False for q in v.flags):
-                return OTHERV
-        return v
+        return refine(st.env.get(id, OTHERV), st.facts, st.disj)
 
     def ev(self, e, st, quiet=False):
         if quiet:
@@ -975,6 +1144,8 @@ class Intra:
 
     def e_Attribute(self, e, st):
         v = self.ev(e.value, st)
+        if e.attr in IMMUTABLE_ATTRS:
+            return OTHERV
         return self.element(v)
 
     def e_Subscript(self, e, st):
@@ -992,7 +1163,8 @@ class Intra:
         va = self.ev(e.body, sa) if sa is not None else OTHERV
         vb = self.ev(e.orelse, sb) if sb is not None else OTHERV
         # recognised copy idiom on the tracked parameter (census only; soundness comes from the values)
-        if (tf or ff) and ({va.lvl, vb.lvl} == {SAFE, OTHER} or (va.lvl == OTHER and vb.lvl == OTHER)):
+        if (tf[0] or ff[0] or tf[1] or ff[1]) and \
+                ({va.lvl, vb.lvl} == {SAFE, OTHER} or (va.lvl == OTHER and vb.lvl == OTHER)):
             txt = ast.unparse(e)
             if ".copy(" in txt:
                 self.idioms.append(e.lineno)
@@ -1091,7 +1263,7 @@ class Intra:
             # a bound method of a receiver-derived object handed over as a callback: assume it gets called
             if isinstance(a, ast.Attribute) and not isinstance(a.ctx, ast.Store):
                 bv = self.ev(a.value, st, quiet=True)
-                cs = self.prog.candidates_any(a.attr)
+                cs = self.prog.candidates_any(a.attr, tensorlike=True)
                 if bv.lvl and ((cs and not any(c[0].is_property for c in cs)) or a.attr in DECLARED_MODIFIES or
                                (a.attr in CONTAINER_MUTATORS and not cs)):
                     fake = ast.Call(func=a, args=[], keywords=[])
@@ -1119,7 +1291,7 @@ class Intra:
                     if isinstance(fn, FuncInfo):
                         return self.apply(e, st, [(fn, {})], OTHERV, argvals, bound=False, label=f"{base.id}.{m}")
                     if isinstance(fn, ClassInfo):
-                        return self.construct(e, fn, allv)
+                        return self.construct(e, fn, allv, st, argvals)
             rv = self.ev(base, st)
             return self.method_call(e, st, m, base, rv, argvals, allv)
         # ---- plain call
@@ -1135,6 +1307,11 @@ class Intra:
                 return OTHERV
             if n == "super":
                 return self.name_val(self.selfname, st) if self.selfname else OTHERV
+            if n in self.fnvars:
+                if self.fnvars[n]:
+                    return self.apply(e, st, [(f_, {}) for f_ in self.fnvars[n]], OTHERV, argvals, bound=False,
+                                      label=n)
+                return OTHERV
             if n in st.env and st.env[n].lvl == OTHER:
                 # calling a local variable (callback): arguments escape into unknown code
                 if any(v.lvl == ORIG for v in allv):
@@ -1144,7 +1321,7 @@ class Intra:
             if isinstance(tgt, FuncInfo):
                 return self.apply(e, st, [(tgt, {})], OTHERV, argvals, bound=False, label=n)
             if isinstance(tgt, ClassInfo):
-                return self.construct(e, tgt, allv)
+                return self.construct(e, tgt, allv, st, argvals)
             if n in PASS_THROUGH:
                 v = joinall(allv)
                 if n in PASS_ELEMENT:
@@ -1157,7 +1334,13 @@ class Intra:
             if any(v.lvl == ORIG for v in allv):
                 self.assumed.add(f"{n}(<receiver>)")
             return OTHERV
-        # ---- computed callee:  self.__class__(...), getattr(x, name)(...), fns[i](...)
+        # ---- computed callee:  TABLE[key](...), self.__class__(...), getattr(x, name)(...), fns[i](...)
+        fs = self.prog.dispatch_targets(self.mod, f)
+        if fs is not None:
+            if fs:
+                return self.apply(e, st, [(f_, {}) for f_ in fs], OTHERV, argvals, bound=False,
+                                  label=ast.unparse(f)[:40])
+            return OTHERV
         fv = self.ev(f, st)
         if isinstance(f, ast.Call) and isinstance(f.func, ast.Name) and f.func.id == "getattr" and len(f.args) >= 2:
             rv = self.ev(f.args[0], st, quiet=True)
@@ -1181,12 +1364,20 @@ class Intra:
         # self.__class__(...) / type(self)(...)  constructors: virtual=True shares the tensors
         return self.construct(e, None, allv)
 
-    def construct(self, e, ci, allv):
+    def construct(self, e, ci, allv, st=None, argvals=None):
+        out = OTHERV
+        if ci is not None and st is not None and any(v.lvl for v in allv):
+            init = self.prog.candidates(ci, "__init__", "class")
+            if init:
+                # the new object holds whatever its __init__ stores into it
+                out = self.apply(e, st, init, OTHERV, argvals or [], bound=True, label=f"{ci.name}.__init__")
+                if out.lvl:
+                    out = out.part(3)
         virt = [k for k in e.keywords if k.arg == "virtual"]
         v = joinall(allv)
         if v.lvl and virt and not (isinstance(virt[0].value, ast.Constant) and virt[0].value.value is False):
-            return v.elem()
-        return OTHERV
+            return join(out, v.elem())
+        return out
 
     def method_call(self, e, st, m, basenode, rv, argvals, allv):
         if m in DECLARED_FRESH:
@@ -1203,7 +1394,10 @@ class Intra:
                 return OTHERV
             if not any(v.lvl for v in allv):
                 return OTHERV
-            cands = self.prog.candidates_any(m)
+            if isinstance(basenode, ast.Name) and basenode.id in self.vartype:
+                cands = self.prog.candidates(self.vartype[basenode.id], m, "class")
+            else:
+                cands = self.prog.candidates_any(m)
             if not cands:
                 if any(v.lvl == ORIG for v in allv):
                     self.assumed.add(f"{ast.unparse(basenode)[:30]}.{m}(<receiver>)")
@@ -1214,14 +1408,24 @@ class Intra:
         if rv.depth == 0 and self.fi.cls is not None and isinstance(basenode, ast.Name) and \
                 self.fi.kind == "method" and self.P == self.selfname:
             cands = self.prog.candidates(self.fi.cls, m, "self")
+        if not cands and isinstance(basenode, ast.Name) and basenode.id in self.vartype:
+            cands = self.prog.candidates(self.vartype[basenode.id], m, "class")
         if not cands:
-            cands = self.prog.candidates_any(m)
+            # a value reached from a tensor / network receiver is a tensor, a network or a builtin container
+            cands = self.prog.candidates_any(m, tensorlike=True)
         if rv.depth in (1, 2) and m in CONTAINER_MUTATORS and not _unobservable(basenode):
             self.event("container-mutation", e, rv, note=f"`{ast.unparse(e.func)}(...)` on a part of the receiver")
         if cands:
             out = self.apply(e, st, cands, rv, argvals, bound=True, label=f".{m}")
             if m in ACCESSORS:
                 out = join(out, self.element(rv))
+            if m in DECLARED_VIEWS:
+                virt = [k for k in e.keywords if k.arg == "virtual"]
+                fv = self.eval_flag(virt[0].value, st) if virt else ("T",)
+                if fv[0] in ("T", "U"):
+                    out = join(out, rv.part(2))
+                elif fv[0] == "P":
+                    out = join(out, Val(SAFE, frozenset([fv[1]]), 2) if rv.lvl == ORIG else rv.part(2))
             return out
         if m.endswith("_") and not m.endswith("__"):
             self.event("call", e, rv, note=f"unresolved `{m}`: trailing underscore => modifies its receiver "
@@ -1248,12 +1452,26 @@ class Intra:
                     rec = st.kwf.get(d.id, {})
                     if q in rec:
                         return rec[q]
-                    if d.id == self.fi.kwarg or d.id in self.fi.allparams or "__local__" in rec:
-                        continue   # caller's own **kwargs / option-dict parameter / local literal: no such key
-                return ("U",)
+                    if d.id == self.fi.kwarg and q not in self.fi.allparams:
+                        # the flag travels through this function's own **kwargs: it behaves like a parameter of it
+                        dflt = fi.defaults.get(q)
+                        dv = self.eval_flag(dflt, State()) if isinstance(dflt, ast.Constant) else \
+                            fi.vflags.get(q, ("U",))
+                        if q in self.fi.vflags and self.fi.vflags[q] != dv:
+                            dv = ("U",)
+                        self.fi.vflags[q] = dv
+                        self.flags.add(q)
+                        if q in st.facts:
+                            return ("T",) if st.facts[q] else ("F",)
+                        return ("P", q)
+                    if d.id == self.fi.kwarg or "__local__" in rec:
+                        continue   # caller's own **kwargs (cannot hold a named parameter) / local literal
+                self.az.assumed_global.add("option dictionaries passed as **opts do not carry a flag (inplace=...) "
+                                           "unless the function itself stores one in them")
+                continue
         dflt = fi.defaults.get(q)
         if dflt is None:
-            return ("U",)
+            return fi.vflags.get(q, ("U",))
         return self.eval_flag(dflt, State()) if isinstance(dflt, ast.Constant) else ("U",)
 
     def apply(self, e, st, cands, rv, argvals, bound, label):
@@ -1300,7 +1518,7 @@ class Intra:
             for k in e.keywords:
                 if k.arg is None:
                     continue
-                if FLAG_RE.match(k.arg) and k.arg in fi.allparams:
+                if FLAG_RE.match(k.arg) and (k.arg in fi.allparams or fi.kwarg):
                     explicit[k.arg] = self.eval_flag(k.value, st)
                 elif k.arg in fi.allparams:
                     v = self.ev(k.value, st, quiet=True)
@@ -1311,12 +1529,16 @@ class Intra:
                     continue
                 s = self.az.summary(fi, p)
                 callee = f"{fi.qual}({p})"
+                s_lvl, s_flags = s.lvl, s.flags
+                if v.depth == 3:
+                    # a fresh holder (list / view / helper object) of parts: only writes that reach the parts count
+                    s_lvl, s_flags, v = s.plvl, s.pflags, v.elem()
                 if s.uncertain and v.lvl == ORIG:
                     self.event("call", e, v, certain=False, note=f"callee {callee} has an undecided effect")
-                if s.lvl == ORIG:
+                if s_lvl == ORIG:
                     self.event("call", e, v, note=f"callee {callee} summary: modifies-receiver")
-                elif s.lvl == SAFE:
-                    for q in sorted(s.flags):
+                elif s_lvl == SAFE:
+                    for q in sorted(s_flags):
                         fv = self.flag_at_call(q, fi, presets, explicit, e, st)
                         if fv[0] == "T":
                             self.event("call", e, v, note=f"callee {callee} modifies iff {q}; called with {q}=True")
@@ -1333,6 +1555,11 @@ class Intra:
                                            note=f"callee {callee} modifies iff {q}; value of {q} at this call unknown")
                             else:
                                 self.event("call", e, v, note=f"callee {callee} {q}=?")
+                if s.lvl != SAFE and v.lvl == ORIG:
+                    # delegation to a function that keeps the receiver untouched but hands back `p if flag else copy`
+                    for q in sorted(s.ret.flags if s.ret.lvl == SAFE else ()):
+                        if FLAG_RE.match(q) and self.flag_at_call(q, fi, presets, explicit, e, st)[0] == "P":
+                            self.delegations.append((e.lineno, callee, q))
                 # result
                 out = join(out, self.map_ret(s.ret, v, fi, presets, explicit, e, st))
                 if s.ret_tuple is not None:
@@ -1412,7 +1639,7 @@ def _receivers(fi):
                     if n.args and isinstance(n.args[0], ast.Name):
                         cand = n.args[0].id
                     if isinstance(n.func, ast.Attribute) and isinstance(n.func.value, ast.Name) and \
-                            n.func.value.id in names:
+                            n.func.value.id in names and cand != fi.recv_param:
                         cand = n.func.value.id
                     if isinstance(n.func, ast.Attribute) and isinstance(n.func.value, ast.Call) and \
                             ast.unparse(n.func.value) == "super()" and fi.kind == "method" and fi.name != "__init__":
